@@ -523,6 +523,39 @@ def multi_scan_script(rng, nc, prec):
     return [scan_s(*x) for x in sc], fam
 
 
+def gen_hdr(rng, cases):
+    """marker writer + pass sequencing: header bytes and pass numbers of accepted parameter sets, all coder combinations"""
+    hv = list(rng.choice(SAMP_SETS))
+    nc = len(hv)
+    prec = 8 if rng.chance(3, 4) else 12
+    fam = rng.choice(["none", "script", "script", "lossless", "lossless-en"])
+    script, lossless = None, 0
+    if fam == "script":
+        script, f2 = multi_scan_script(rng, nc, prec); fam += "-" + f2
+    elif fam == "lossless":
+        prec = rng.choice([2, 8, 12, 16])
+        script = [scan_s(*x) for x in gen_seq_script(rng, nc, True, prec)]
+    elif fam == "lossless-en":
+        lossless = 1; prec = rng.choice([8, 12, 16])
+    elif nc > 4:
+        nc = 3; hv = hv[:3]
+    arith, opt = (1, rng.below(2)) if rng.chance(1, 3) else (0, rng.below(2))
+    if fam.startswith("lossless"):
+        arith = 0
+    line = setup_line(rng.choice([8, 17, 40]), rng.choice([8, 9, 33]), nc, nc, prec, lossless, 0, arith, opt, 0,
+                      rng.choice([0, 0, 4]), rng.choice([0, 0, 1]), hv, script)
+    cases.append(("hdr" + line[5:], "hdr-" + fam.split("-")[0], {"nscans": len(script) if script else 1}))
+
+
+def tn_cases(cases):
+    """table numbers of a component at / beyond NUM_QUANT_TBLS, NUM_HUFF_TBLS, NUM_ARITH_TBLS on both paths"""
+    for path in (0, 1):
+        for which in (0, 1, 2):
+            for idx in (-1, 0, 1, 2, 3, 4, 5, 15, 16, 40):
+                for arith, opt in ((0, 0), (0, 1), (1, 0)):
+                    cases.append(("tn %d %d %d %d %d" % (path, which, idx, arith, opt), "tn", None))
+
+
 def gen_rst(rng, cases):
     """restart_in_rows x multi-scan scripts x subsamplings x entropy coders; reference = the restart-free encoding"""
     raw = 1 if rng.chance(1, 3) else 0
@@ -624,9 +657,12 @@ def run_harness(ctx, exe, cases, fl):
                     frame = l.strip()[:160]
                     break
             what = "hang (alarm)" if rc in (-14, 142) or "[timeout]" in err else "crash / sanitizer report"
+            sig = "crash:%s:%s" % (tag or kind, frame.split(" in ")[-1][:60] if frame else rc)
+            if kind == "tn":
+                w = line.split()[2]
+                sig = "quant-tbl-no-unchecked-transcode" if w == "0" else "huff-tbl-no-index-before-check"
             ctx.violation("compressor %s on the %s build (rc=%d): %s" % (what, fl, rc, frame),
-                          {"case": line, "flavour": fl, "stderr": err[-3000:]},
-                          signature="crash:%s:%s" % (tag or kind, frame.split(" in ")[-1][:60] if frame else rc))
+                          {"case": line, "kind": kind, "flavour": fl, "stderr": err[-3000:]}, signature=sig)
             outs.append("<crash> # -")
             pos += 1
     while len(outs) < len(cases):
@@ -663,7 +699,7 @@ def oracle_verdict(kind, meta, line):
     if len(exp) == 3 and len(dec) == 3:
         if exp[:2] != dec[:2] or (exp[2] != "0" and exp[2] != dec[2]):
             return "decoded dimensions %s differ from the declared %s" % (f.get("dec"), f.get("exp"))
-    if (kind.startswith("setup-") or kind.startswith("rst-") or kind == "raw") and isinstance(meta, dict) and meta.get("nscans") and f.get("scans") and \
+    if (kind.startswith("setup-") or kind.startswith("rst-") or kind.startswith("hdr-") or kind == "raw") and isinstance(meta, dict) and meta.get("nscans") and f.get("scans") and \
             int(f["scans"]) != meta["nscans"]:
         return "stream has %s scans, script has %d" % (f["scans"], meta["nscans"])
     return None
@@ -753,6 +789,9 @@ def run(ctx):
         gen_rst(rng, cases)
     for _ in range(ctx.n(250, 6000)):
         gen_raw(rng, cases)
+    for _ in range(ctx.n(300, 8000)):
+        gen_hdr(rng, cases)
+    tn_cases(cases)
     return run_cases(ctx, cases, exes, drv, flavours)
 
 
